@@ -35,7 +35,9 @@ DEVS = ["DiscRoundHalfUp", "DiscMergeKeepsLast", "DiscNoNormalise", "NoSkipBetwe
         "ShiftByTapIndex", "SwitchedNotTransposed", "TailDropped", "SliceBlockSizeFloorDiv", "MuSetPathlossNoneRaises",
         "PathlossZeroIsNone"]
 # real deviations of the code (the others are plausible regressions used to show the laws are not vacuous)
-REAL_DEVS = {"ProfileRmsSqrtDomain": "TdlChannelProfile() raises ValueError (math domain error) when all taps share one non-zero "
+REAL_DEVS = {"SetNumAntennasNoneRaises": "set_num_antennas(None, None) (documented: back to SISO) leaves the fading generator with shape "
+                                         "(taps, None, None); the next transmission raises TypeError",
+             "ProfileRmsSqrtDomain": "TdlChannelProfile() raises ValueError (math domain error) when all taps share one non-zero "
                                      "delay: rms delay spread takes the sqrt of a variance that rounds below zero",
              "SliceBlockSizeFloorDiv": "corrupt_data_in_freq_domain raises (or would mis-size blocks) for a slice whose step "
                                        "does not divide its span: block size is computed as (stop-start)//step",
@@ -63,8 +65,9 @@ PROFILES = {
     "four": [[0, [1, 25]], [4, [4, 25]], [8, [4, 25]], [12, [16, 25]]],
     "tie25": [[10, [25, 169]], [0, [144, 169]]],                  # 2.5 -> 2; amplitudes 12/13, 5/13
     "zerotap": [[0, [9, 25]], [4, [0, 1]], [8, [16, 25]]],        # a tap of power 0 (-inf dB): kept, contributes nothing
+    "lateone": [[7, [1, 2]], [9, [1, 2]]],                        # 1.75 and 2.25 merge into ONE tap at delay 2 (memory 2)
 }
-TIE_FREE = {"flat", "two01", "two02", "collide", "unnorm", "three013", "unsorted", "late", "mergeone", "four", "zerotap"}
+TIE_FREE = {"flat", "two01", "two02", "collide", "unnorm", "three013", "unsorted", "late", "mergeone", "four", "zerotap", "lateone"}
 
 
 def to_dB(p):
@@ -159,14 +162,15 @@ def configs_for(tier, seed):
     # --- TdlChannel / TdlMimoChannel: every profile x rotating antenna families
     for i, name in enumerate(names):
         mem = mem_of(PROFILES[name])
-        fams = ants if thorough else [ants[(i + k) % 4] for k in range(2)]
+        # the SISO and the MIMO branches of the code are separate: every profile runs on SISO and on one MIMO family
+        fams = ants if thorough else [ants[0], ants[1 + i % 3]]
         for j, ant in enumerate(fams):
             ops = time_ops(2 + (i + j) % 2, 4 + (i + j) % 2, gen=(j == 0))
             ops += freq_ops(mem, rot + 3 * i + j, 4 if thorough else 3, lin=(j == 0), with8=thorough)
             if ant != (0, 0) or i % 4 == 0:
                 ops += dirs
             small = (ant[0] or 1) * (ant[1] or 1) <= 2
-            add("tdl", name, ant, ops=ops, variant=i + j, maxpos=(20 if small else 16) if thorough else (10 if ant == (2, 3) else mp),
+            add("tdl", name, ant, ops=ops, variant=i + j, maxpos=(20 if small else 16) if thorough else (mp if ant == (0, 0) else 10),
                 ts=("dec" if name in TIE_FREE and (i + j) % 2 else "dy" if (i + j) % 3 else "one"))
     # --- SuChannel / SuMimoChannel with a scalar path loss
     # amplitude 0 = path loss exactly 0.0 (falsy but valid), next to ordinary values, None (op PL 0) and, thorough, 1.0
@@ -262,7 +266,7 @@ def tables(seed, tlen, nlinks=6, ntap=4, nant=3, nsig_users=3, maxn=8):
 
 
 def tla_cfg(c):
-    d = {k: v for k, v in c.items() if k not in ("pname", "ts", "variant")}
+    d = {k: v for k, v in c.items() if k not in ("pname", "ts", "variant", "none_route")}
     return d
 
 
@@ -339,6 +343,12 @@ def build_channel(c, ctable):
         kw = dict(channel_profile=fading.TdlChannelProfile(dB, delays, "raw"), Ts=ts)
     else:
         kw = dict(channel_profile=fading.TdlChannelProfile(dB, delays, "raw").get_discretize_profile(ts))
+    if c.get("none_route") and not mimo and c["kind"] in ("tdl", "su"):
+        # documented route back to SISO: built for 2x2 antennas, then set_num_antennas(None, None)
+        cls = fading.TdlChannel if c["kind"] == "tdl" else singleuser.SuChannel
+        ch = cls(TableGen(ctable, shape=(2, 2)), **kw)
+        ch.set_num_antennas(None, None)
+        return ch
     if c["kind"] == "tdl":
         if not mimo:
             return fading.TdlChannel(TableGen(ctable), **kw)
@@ -543,6 +553,10 @@ def run_path(job):
             if k == "F" and is_slice_defect(e) and isinstance(ex, (ValueError, ZeroDivisionError)):
                 finds.append({"id": "SliceBlockSizeFloorDiv", "step": i, "what": desc + f" for selection {selection_for(o)} "
                               f"(selected {len(exp['sel'])} carriers, (stop-start)//step = {exp['fdbs']})"})
+                break
+            if c.get("none_route") and isinstance(ex, TypeError) and "NoneType" in str(ex):
+                finds.append({"id": "SetNumAntennasNoneRaises", "step": i,
+                              "what": f"after set_num_antennas(None, None) (documented: SISO) {desc}"})
                 break
             if is_plnone_defect(c, e) and isinstance(ex, TypeError):
                 finds.append({"id": "MuSetPathlossNoneRaises", "step": i, "what": "MuChannel.set_pathloss(None) raised TypeError"})
@@ -761,6 +775,13 @@ def run(ctx):
                         "sampling intervals",
                         "tolerance 1e-9 relative"]
     cfgs = configs_for(ctx.tier, ctx.seed)
+    # set_num_antennas(None, None) is documented to return to SISO but leaves a (taps, None, None) generator shape on the
+    # current tree (notes/C03.md, proposed repair notes/fixes/C03-SetNumAntennasNoneRaises.patch).  The construction route that
+    # uses it is exercised only once the deviation is listed in known_findings.json (open: reported as known; fixed: must conform).
+    if "SetNumAntennasNoneRaises" in ctx.findings:
+        for c in cfgs:
+            if c["kind"] in ("tdl", "su") and c["ant"][0] == 0 and c["id"] % 3 == 0:
+                c["none_route"] = True
     tlen = max(c["maxpos"] for c in cfgs)
     table, signals = tables(ctx.seed, tlen, maxn=16 if thorough else 8)
     ctable = (table[..., 0] + 1j * table[..., 1]).astype(complex)
